@@ -123,7 +123,7 @@ class LRTDP(Plans):
             for a in mdp.actions(s):
                 ns_dist = mdp.next_state_dist(s, a)
                 val = ns_dist.expectation(
-                    lambda ns : mdp.reward(s, a, ns) + mdp.discount_rate*heuristic(ns)
+                    lambda ns : mdp.reward(s, a, ns) + mdp.discount_rate*res.V[ns]
                 ) 
                 if val > max_val:
                     max_actions = [a]
@@ -141,7 +141,8 @@ class LRTDP(Plans):
 
     def lrtdp(self, mdp : MarkovDecisionProcess, heuristic=None, iterations=None):
         # Ghallab, Nau, Traverso: Algorithm 6.17
-        self.res.V = defaultdict2(heuristic)
+        # absorbing states are worth 0, whatever the heuristic says about them
+        self.res.V = defaultdict2(lambda s: 0 if mdp.is_absorbing(s) else heuristic(s))
         self.res.action_orders = dict()
 
         # Keeping track of "labels": which states have been solved
